@@ -41,7 +41,7 @@ def make_case(seed, shard, i):
     r = random.Random(f"{seed}:C06:{shard}:{i}")
     named = r.random() < 0.5
     recs, dialect = csvgen.arbitrary(r, named_headers=named)
-    return {"records": recs, "dialect": dialect, "named": named}
+    return {"records": recs, "dialect": dialect, "named": named, "via_csvpaths": r.random() < 0.2}
 
 
 def run_case(case, agg, tag):
@@ -57,8 +57,29 @@ def run_case(case, agg, tag):
         oracle = csvgen.parse_bytes(data, dialect)
         nonblank = [rec for rec in oracle if len(rec) > 0]
         kw = {"delimiter": dialect["delimiter"], "quotechar": dialect["quotechar"]}
-        # ---- A: every record comes back as it is
-        c, cap = env.new_csvpath(["raise", "collect"], **kw)
+        # ---- A: every record comes back as it is (a fifth of the files go through CsvPaths().csvpath(),
+        #         i.e. through the line-count/header cache, twice: cold then warm)
+        via_csvpaths = case.get("via_csvpaths", False)
+
+        def make():
+            if not via_csvpaths:
+                return env.new_csvpath(["raise", "collect"], **kw)
+            from csvpath import CsvPaths
+            from csvpath.util.error import ErrorCommsManager
+
+            cs = CsvPaths(print_default=False, **kw)
+            cpath = cs.csvpath()
+            cpath.config.csvpath_errors_policy = ["raise", "collect"]
+            cpath._ecoms = ErrorCommsManager(csvpath=cpath)
+            return cpath, None
+
+        if via_csvpaths:
+            warm, _ = make()
+            try:
+                warm.collect(f"${fname}[*][yes()]")
+            except Exception:  # noqa
+                pass
+        c, cap = make()
         with hooks.recording(agg) as rec:
             try:
                 lines = c.collect(f"${fname}[*][yes()]")
@@ -87,7 +108,7 @@ def run_case(case, agg, tag):
             ref = f'#"{n}"' if (" " in n) else f"#{n}"
             comps.append(f"@v{i} = {ref} @w{i} = #{i}")
         prog = f"${fname}[*][{' '.join(comps)}]"
-        c2, _ = env.new_csvpath(["raise", "collect"], **kw)
+        c2, _ = make()
         with hooks.recording(agg) as rec2:
             try:
                 c2.collect(prog)
@@ -126,7 +147,7 @@ def shape_of(case):
                 k += "e" if cell == "" else ("q" if any(ch in cell for ch in ',;|\t"\'\n') else ("u" if any(ord(ch) > 127 for ch in cell) else "a"))
             kinds.append(k)
     d = case["dialect"]
-    return f"{d['delimiter']!r}{d['quotechar']}{len(d['lineterminator'])}|{case['named']}|" + "/".join(kinds)
+    return f"{d['delimiter']!r}{d['quotechar']}{len(d['lineterminator'])}|{case['named']}|{case.get('via_csvpaths')}|" + "/".join(kinds)
 
 
 def run_shard(spec, agg):
